@@ -31,8 +31,12 @@ Paged(o, n) == /\ Can /\ o \in {"exec_paged", "cexec_paged"} /\ (only = "any" \/
 PagedMid(o, n, e) == /\ Can /\ o \in {"exec_paged", "cexec_paged"} /\ (only = "any" \/ Kind(o) = only) /\ OkEv(e)
                      /\ steps' = Append(steps, [op |-> o, node |-> n, pk |-> nops + 1, mid |-> e]) /\ nops' = nops + 1
                      /\ nchg' = nchg + (IF Changes(e) THEN 1 ELSE 0) /\ UNCHANGED <<cf, only, fin>>
+\* two executions at once, one forced to each node (only where both nodes support the same extensions: which of two different
+\* announcements the shared handle holds in between is then not a question)
+Both == /\ Can /\ cf.ext \in {<<1, 1>>, <<0, 0>>} /\ only \in {"any", "p"}
+        /\ steps' = Append(steps, [op |-> "exec2", pk |-> nops + 1]) /\ nops' = nops + 2 /\ UNCHANGED <<cf, only, nchg, fin>>
 End == /\ ~fin /\ nops >= 2 /\ "op" \in DOMAIN steps[Len(steps)] /\ fin' = TRUE /\ UNCHANGED <<cf, only, steps, nchg, nops>>
-Next == \/ End \/ IdChange
+Next == \/ End \/ IdChange \/ Both
         \/ \E e \in Evs : Event(e)
         \/ \E n \in {0, 1} : \/ \E o \in {"exec", "cexec", "batch"} : Plain(o, n)
                              \/ \E o \in {"exec_paged", "cexec_paged"} : Paged(o, n) \/ \E e \in Evs : PagedMid(o, n, e)
